@@ -23,7 +23,7 @@ def Clause_(name, text, kind, tags):
     return Clause(name, text, kind, tags)
 
 
-def mk(qualname, ensures=(), **kw):
+def mk(qualname, ensures=(), dispatches=False, **kw):
     """ensures: list of Clause | (name, text) ; Inv/Step are added as auxiliary ensures (used by callers) and are
     checked as obligations by the exit hook (with the tags of the running property)."""
     from pyvc.contracts import Clause
@@ -31,8 +31,21 @@ def mk(qualname, ensures=(), **kw):
     cl = []
     for e in ensures:
         cl.append(e if isinstance(e, Clause) else Clause(e[0], e[1], "auxiliary"))
+    if not dispatches:
+        cl.append(Clause("delivers-nothing", "ghost.dispatched == old(ghost.dispatched)", "auxiliary"))
     c.ensures = cl + [Clause(n, t, "auxiliary") for n, t, _ in inv_step_ensures()]
     c.own_ensures = len(cl)
+    # exceptional exits give callers the same Inv/Step/frame facts (they are obligations of the exit hook here)
+    newr = {}
+    for k, spec in (c.raises or {}).items():
+        spec = {} if spec is True else ({"when": spec} if isinstance(spec, str) else dict(spec))
+        have = {e[0] for e in spec.get("ensures", []) if isinstance(e, tuple)}
+        extra = [(n, t) for n, t, _k in inv_step_ensures() if n not in have]
+        if not dispatches and "delivers-nothing" not in have:
+            extra.append(("delivers-nothing", "ghost.dispatched == old(ghost.dispatched)"))
+        spec["ensures"] = list(spec.get("ensures", [])) + extra
+        newr[k] = spec
+    c.raises = newr
     if c.modifies is None:
         c.modifies = all_mods()
     return c
@@ -45,7 +58,7 @@ def cleanup_contract():
     W = "enum_of(old(set_val(self._read_exception_futures)))"
     return mk(
         "_cleanup",
-        setup=lambda eng, st: st.env.f.__setitem__("k", fresh(eng, st, "int", "k")),
+        ghost_params={"k": "int"},
         ensures=[
             P("C05", "closed", CLOSED),
             P("C07", "stop-exactly-when-was-connected",
@@ -89,6 +102,290 @@ def report_fatal_error_contract():
     )
 
 
+STOP_EXACT = (f"ghost.stop_calls == old(ghost.stop_calls) + (1 if (old({S}) is not CS.CLOSED and old(self.is_connected) "
+              "and old(self.on_stop) is not None) else 0)")
+
+
+def msgs_setup(n):
+    """`msgs` = a tuple of n messages of arbitrary protocol classes (symbolic)."""
+    def setup(eng, st):
+        import aioesphomeapi.api_pb2 as pb
+        from pyvc.builtins import typeof_f, cls_code
+        import z3
+        items = []
+        for i in range(n):
+            m = z3.Const(fresh_name(f"msg{i}"), ObjS)
+            codes = [cls_code(k.py) for k, _ in st_proto_items(eng, st)]
+            st.assume(z3.Or(*[typeof_f(m) == c for c in codes]))
+            items.append(VObj(m, "Message"))
+        st.env.f["msgs"] = VTuple(items)
+    return setup
+
+
+def st_proto_items(eng, st):
+    import aioesphomeapi.connection as C
+    v = eng.lift(C.PROTO_TO_MESSAGE_TYPE, st)
+    return list(st.heap[v.oid].f["items"].values())
+
+
+def send_messages_contract(n=1):
+    exp = ", ".join(f"(proto_id(class_of(msgs[{i}])), msgs[{i}])" for i in range(n))
+    exp = f"(({exp}{',' if n == 1 else ''}),)" if n else "((),)"
+    c = mk(
+        "send_messages", params={"msgs": "none"}, setup=msgs_setup(n), label=f"arity{n}",
+        ensures=[
+            P("C02", "exactly-one-write-of-the-batch", f"n_writes == 1 and writes == {exp}"),
+            P("C08", "written-only-while-open", "write_before_close and old(self._handshake_complete)"),
+            ("nothing-else-changes", "conn_unchanged()"),
+        ],
+        raises={
+            "ConnectionNotEstablishedAPIError": {"when": "not old(self._handshake_complete)", "kind": "property",
+                                                 "ensures": [("gate-writes-nothing", "n_writes == 0 and conn_unchanged()")]},
+            "SocketClosedAPIError": {"when": "old(self._handshake_complete)", "kind": "property",
+                                     "ensures": [("closed-after-write-failure", CLOSED),
+                                                 ("first-cause-kept", "implies(old(self._fatal_exception) is None, self._fatal_exception is exc)"),
+                                                 ("stop-exactly", STOP_EXACT),
+                                                 ("stop-reason", "implies(ghost.stop_calls > old(ghost.stop_calls), ghost.stop_arg == old(ghost.graceful))"),
+                                                 ("no-write-recorded", "n_writes == 0")]},
+        },
+        tags=["C02", "C08", "C09"],
+    )
+    return c
+
+
+def send_messages_callee():
+    """What callers of send_messages rely on (any arity): the conjunction proved per arity above."""
+    c = send_messages_contract(1)
+    c.label = None
+    return c
+
+
+def process_packet_contract():
+    H = "enum_of(old(handlers_of(self, proto_class(msg_type_proto))))"
+    return mk(
+        "process_packet", params={"msg_type_proto": "int", "data": "bytes"}, dispatches=True,
+        requires=[("type-number-is-a-varint-or-16-bit-value", "msg_type_proto >= 0")],
+        post_hints=f"if defined_id(msg_type_proto):\n    unfold(with_msg({H}, msg, len({H})))",
+        ensures=[
+            P("C12", "undefined-type-ignored", "implies(not defined_id(msg_type_proto), conn_unchanged() and n_writes == 0)"),
+            P("C12", "class-is-the-one-api.proto-assigns", "implies(defined_id(msg_type_proto), same_class(class_of(msg), proto_class(msg_type_proto)))"),
+            P("C12", "each-subscriber-exactly-once-in-one-pass",
+              f"implies(defined_id(msg_type_proto), ghost.dispatched == old(ghost.dispatched) + with_msg({H}, msg, len({H})))"),
+        ],
+        raises={"Exception": {"kind": "property", "ensures": [
+            ("undecodable-closes-with-protocol-error", f"implies(decode_failed, {CLOSED} and ghost.dispatched == old(ghost.dispatched) and "
+                                                       "implies(old(self._fatal_exception) is None, exact_type(self._fatal_exception, ProtocolAPIError)))"),
+            ("only-defined-types-reach-handlers", "defined_id(msg_type_proto)"),
+        ]}},
+        loops={"loop#1": dict(
+            index="_i",
+            invariant=[f"ghost.dispatched == old(ghost.dispatched) + with_msg({H}, msg, _i)",
+                       f"enum_of(handlers_copy) == {H}"] + loop_inv_step(),
+            entry_hints=f"unfold(with_msg({H}, msg, 0))",
+            end_hints=f"unfold(with_msg({H}, msg, _i))",
+            modifies=all_mods())},
+        tags=["C12", "C10"],
+    )
+
+
+STOP_REASON = "implies(ghost.stop_calls > old(ghost.stop_calls), ghost.stop_arg == old(ghost.graceful))"
+SC_RAISE = lambda extra=(): {"SocketClosedAPIError": {"kind": "property", "ensures": [("closed-after-write-failure", CLOSED)] + list(extra)}}  # noqa: E731
+
+
+def ping_handler_contract():
+    return mk(
+        "_handle_ping_request_internal", params={"_msg": "msg[PingRequest]"},
+        ensures=[P("C12", "answers-with-one-ping-response", "writes == (((proto_id(PingResponse), PingResponse()),),)"),
+                 ("nothing-else-changes", "conn_unchanged()")],
+        raises={"ConnectionNotEstablishedAPIError": {"kind": "auxiliary", "when": "not old(self._handshake_complete)", "ensures": [("nothing", "n_writes == 0")]},
+                **SC_RAISE()},
+        tags=["C12"],
+    )
+
+
+def time_handler_contract():
+    return mk(
+        "_handle_get_time_request_internal", params={"_msg": "msg[GetTimeRequest]"},
+        ensures=[P("C12", "answers-with-the-current-time", "n_writes == 1 and len(writes[0]) == 1 and writes[0][0][0] == proto_id(GetTimeResponse) and "
+                                                          "writes[0][0][1] == GetTimeResponse(epoch_seconds=int(wallclock))"),
+                 ("nothing-else-changes", "conn_unchanged()")],
+        raises={"ConnectionNotEstablishedAPIError": {"kind": "auxiliary", "when": "not old(self._handshake_complete)", "ensures": [("nothing", "n_writes == 0")]},
+                **SC_RAISE()},
+        tags=["C12"],
+    )
+
+
+def disconnect_handler_contract():
+    return mk(
+        "_handle_disconnect_request_internal", params={"_msg": "msg[DisconnectRequest]"},
+        pre_hints="ghost.graceful = True",       # a disconnect request from the device has been received: graceful close initiated
+        ensures=[P("C12", "response-first-then-close", "writes == (((proto_id(DisconnectResponse), DisconnectResponse()),),) and write_before_close"),
+                 P("C12", "closed", CLOSED),
+                 P("C07", "stop-exactly-when-was-connected", STOP_EXACT),
+                 P("C07", "stop-says-expected", "implies(ghost.stop_calls > old(ghost.stop_calls), ghost.stop_arg)")],
+        raises={"ConnectionNotEstablishedAPIError": {"kind": "auxiliary", "when": "not old(self._handshake_complete)", "ensures": [("nothing", "n_writes == 0")]},
+                **SC_RAISE([("stop-says-expected-even-if-the-reply-fails", "implies(ghost.stop_calls > old(ghost.stop_calls), ghost.stop_arg)"),
+                            ("stop-exactly", STOP_EXACT)])},
+        tags=["C12", "C07"],
+    )
+
+
+def force_disconnect_contract():
+    return mk(
+        "force_disconnect",
+        pre_hints="ghost.graceful = True",       # a local force-disconnect has been initiated
+        ensures=[P("C05", "closed", CLOSED),
+                 P("C07", "stop-exactly-when-was-connected", STOP_EXACT),
+                 P("C07", "stop-says-expected", "implies(ghost.stop_calls > old(ghost.stop_calls), ghost.stop_arg)"),
+                 P("C08", "at-most-the-disconnect-request-is-written",
+                   "n_writes == 0 or (writes == (((proto_id(DisconnectRequest), DisconnectRequest()),),) and write_before_close and old(self._handshake_complete))")],
+        tags=["C05", "C07", "C08", "C09"],
+    )
+
+
+def send_keep_alive_contract():
+    K = "self._keep_alive_interval"
+    return mk(
+        "_async_send_keep_alive",
+        requires=[("own-timer-fired", "self._ping_timer is not None")],
+        ensures=[
+            P("C10", "ping-exactly-when-idle", "n_writes == (1 if old(self._send_pending_ping) else 0) and "
+                                               "implies(n_writes == 1, writes == (((proto_id(PingRequest), PingRequest()),),))"),
+            P("C10", "pong-deadline-armed-once-at-4.5K",
+              "implies(old(self._send_pending_ping) and old(self._pong_timer) is None, self._pong_timer is not None and armed(self._pong_timer) "
+              f"and timer_when(self._pong_timer) == ghost.now + {K} * 4.5 and timer_cb(self._pong_timer) is boxed(self._async_pong_not_received))"),
+            P("C10", "pong-deadline-never-moved", "implies(old(self._pong_timer) is not None or not old(self._send_pending_ping), self._pong_timer is old(self._pong_timer))"),
+            P("C10", "next-tick-at-now-plus-K", f"self._ping_timer is not None and armed(self._ping_timer) and timer_when(self._ping_timer) == ghost.now + {K} "
+                                                "and timer_cb(self._ping_timer) is boxed(self._async_send_keep_alive) and self._send_pending_ping"),
+        ],
+        raises={"SocketClosedAPIError": {"kind": "property", "ensures": [
+            ("closed-after-write-failure", CLOSED), ("nothing-re-armed-after-close", "self._ping_timer is None and self._pong_timer is None")]}},
+        tags=["C10", "C08"],
+    )
+
+
+def pong_not_received_contract():
+    return mk(
+        "_async_pong_not_received",
+        ensures=[P("C10", "declares-dead", CLOSED),
+                 P("C10", "ping-failed-error", "implies(old(self._fatal_exception) is None, exact_type(self._fatal_exception, PingFailedAPIError))"),
+                 P("C10", "unexpected-stop-unless-graceful", STOP_EXACT + " and " + STOP_REASON)],
+        tags=["C10", "C07"],
+    )
+
+
+def hello_resp_contract():
+    return mk(
+        "_process_hello_resp", params={"resp": "msg[HelloResponse]"},
+        ensures=[
+            P("C06", "accepted-only-if-compatible-and-correctly-named",
+              "resp.api_version_major <= 2 and (self._params.expected_name is None or resp.name == '' or resp.name == self._params.expected_name)"),
+            P("C06", "version-recorded", "self.api_version == APIVersion(resp.api_version_major, resp.api_version_minor)"),
+            P("C06", "name-recorded", "implies(resp.name != '', self.received_name == resp.name)"),
+        ],
+        raises={
+            "BadNameAPIError": {"kind": "property", "when": "resp.api_version_major <= 2 and self._params.expected_name is not None and resp.name != '' and resp.name != self._params.expected_name",
+                                "ensures": [("carries-the-received-name", "exc.received_name == resp.name")]},
+            "APIConnectionError": {"kind": "property", "when": "resp.api_version_major > 2 or (self._params.expected_name is not None and resp.name != '' and resp.name != self._params.expected_name)"},
+        },
+        modifies=["self.api_version", "self.received_name", "self.log_name"],
+        tags=["C06"],
+    )
+
+
+def login_resp_contract():
+    return mk(
+        "_process_login_response", params={"login_response": "msg[ConnectResponse]"},
+        ensures=[P("C06", "accepted-only-if-password-valid", "not login_response.invalid_password"), ("nothing-changes", "conn_unchanged()")],
+        raises={"InvalidAuthAPIError": {"kind": "property", "when": "login_response.invalid_password", "ensures": [("nothing-changes", "conn_unchanged()")]}},
+        modifies=[], tags=["C06"],
+    )
+
+
+def make_connect_request_contract():
+    return mk(
+        "_make_connect_request", result="msg[ConnectRequest]",
+        ensures=[P("C06", "carries-the-configured-password", "result == ConnectRequest(password=(self._params.password if self._params.password is not None else ''))"),
+                 ("nothing-changes", "conn_unchanged()")],
+        modifies=[], tags=["C06"],
+    )
+
+
+def wrap_contract():
+    return mk(
+        "_wrap_fatal_connection_exception", params={"action": "str", "ex": "exc[BaseException]"}, result="exc[Exception]",
+        ensures=[P("C09", "always-a-connection-error", "typeof_is(result, APIConnectionError)"),
+                 P("C09", "connection-errors-pass-through-unchanged", "implies(typeof_is(ex, APIConnectionError), result is ex)"),
+                 P("C09", "first-fatal-cause-decides-the-class",
+                   "implies(not typeof_is(ex, APIConnectionError) and typeof_is(self._fatal_exception, APIConnectionError), same_class(class_of(result), class_of(self._fatal_exception)))"),
+                 P("C09", "cancellation-and-socket-errors-are-classified",
+                   "implies(not typeof_is(ex, APIConnectionError) and not typeof_is(self._fatal_exception, APIConnectionError), "
+                   "(exact_type(result, APIConnectionCancelledError) if typeof_is(ex, CancelledError) else "
+                   "(exact_type(result, SocketAPIError) if typeof_is(ex, OSError) else exact_type(result, UnhandledAPIConnectionError))))"),
+                 ("nothing-changes", "conn_unchanged()")],
+        modifies=[], tags=["C09"],
+    )
+
+
+def _regions_setup(eng, st):
+    for r in cm.REGIONS:
+        region(eng, st, r)
+
+
+def handle_timeout_contract():
+    return Contract(
+        CONN + "handle_timeout", params={"fut": "obj[Future]"}, setup=_regions_setup, tags=["C11"],
+        ensures=[("fails-only-a-pending-future-with-a-timeout", "fdone(fut) and implies(not old(fdone(fut)), fexc(fut) is boxed(asyncio_TimeoutError))"),
+                 ("a-completed-future-is-left-alone", "implies(old(fdone(fut)), fexc(fut) is old(fexc(fut)))")],
+        modifies=["region:Future.done", "region:Future.exc"],
+    )
+
+
+def handle_complex_message_contract():
+    return Contract(
+        CONN + "handle_complex_message", setup=_regions_setup, tags=["C11"],
+        params={"fut": "obj[Future]", "responses": "list[obj]", "do_append": "opt[callable[Pred]]", "do_stop": "opt[callable[Pred]]", "resp": "obj[Message]"},
+        ensures=[
+            ("ignores-messages-after-completion", "implies(old(fdone(fut)), responses == old(responses) and fdone(fut) and fexc(fut) is old(fexc(fut)))"),
+            ("appends-exactly-the-accepted-message",
+             "implies(not old(fdone(fut)), responses == old(responses) + ((resp,) if (do_append is None or accepts(do_append, resp)) else ()))"),
+            ("completes-exactly-on-the-stop-message",
+             "implies(not old(fdone(fut)), fdone(fut) == (do_stop is None or accepts(do_stop, resp)) and implies(fdone(fut), not has_exc(fut)))"),
+        ],
+        modifies=["region:Future.done", "region:Future.exc", "responses"],
+    )
+
+
+def _in_types(q, n):
+    return " or ".join(f"same_class({q}, msg_types[{i}])" for i in range(n)) or "False"
+
+
+def add_callback_contract(n=1, qual="_add_message_callback_without_remove"):
+    return mk(
+        qual, params={"on_message": "callable[Callback]", "msg_types": "tuple[" + ",".join(["cls"] * n) + "]"}, label=f"arity{n}",
+        ghost_params={"q": "cls"},
+        result=("callable[Remover]" if qual == "add_message_callback" else None),
+        ensures=[P("C11", "adds-exactly-this-callback-for-exactly-these-types",
+                   f"handlers_of(self, q) == (set_add(old(handlers_of(self, q)), on_message) if ({_in_types('q', n)}) else old(handlers_of(self, q)))"),
+                 ("types-have-entries-afterwards", " and ".join(f"has_entry(self, msg_types[{i}])" for i in range(n)) or "True"),
+                 ("entries-never-disappear", "implies(old(has_entry(self, q)), has_entry(self, q))")]
+        + ([("returns-the-matching-remover", "is_remover(result, self, on_message, msg_types)")] if qual == "add_message_callback" else []),
+        modifies=["self._message_handlers"], tags=["C11", "C12"],
+    )
+
+
+def remove_callback_contract(n=1):
+    return mk(
+        "_remove_message_callback", params={"on_message": "callable[Callback]", "msg_types": "tuple[" + ",".join(["cls"] * n) + "]"}, label=f"arity{n}",
+        ghost_params={"q": "cls"},
+        requires=[(f"type{i}-was-registered", f"has_entry(self, msg_types[{i}])") for i in range(n)],
+        ensures=[P("C11", "removes-exactly-this-callback-for-exactly-these-types",
+                   f"handlers_of(self, q) == (set_del(old(handlers_of(self, q)), on_message) if ({_in_types('q', n)}) else old(handlers_of(self, q)))"),
+                 ("entries-never-disappear", "implies(old(has_entry(self, q)), has_entry(self, q))")],
+        modifies=["self._message_handlers"], tags=["C11", "C12"],
+    )
+
+
 def targets_for(eng, names, tags):
     """Install the model, register every connection contract (so callers use contracts, not bodies) and return the
     targets for `names`."""
@@ -96,17 +393,54 @@ def targets_for(eng, names, tags):
     register_specs(eng, "specs.conn")
     for n in INLINE:
         eng.inline.add(CONN + "APIConnection." + n)
+    from pyvc import source
+    for qn in source.get_module("aioesphomeapi.core").funcs:
+        if qn.endswith(".__init__"):
+            eng.inline.add("aioesphomeapi.core." + qn)
     allc = ALL()
     for c in allc.values():
         eng.contracts[c.target] = c
     out = []
     for n in names:
+        if n == "send_messages":
+            for k in (0, 1, 2, 3):
+                c = send_messages_contract(k)
+                c.tags = list(tags)
+                out.append(contract_target(c))
+            continue
+        if n in ("_add_message_callback_without_remove", "add_message_callback", "_remove_message_callback"):
+            for k in (1, 2, 3):
+                c = remove_callback_contract(k) if n == "_remove_message_callback" else add_callback_contract(k, n)
+                c.tags = list(tags)
+                out.append(contract_target(c))
+            continue
         c = allc[n]
         c.tags = list(tags)
         out.append(contract_target(c))
     return out
 
 
+def arity_dispatch(qual, make):
+    """Callee-side contract for the functions proved per arity of `msg_types`: picks the contract of the call's arity."""
+    from pyvc.contracts import apply_contract
+    c = Contract(CONN + "APIConnection." + qual, self_type="inst[APIConnection]")
+
+    def model(eng, st, fv, args, kwargs):
+        mt = kwargs.get("msg_types", args[-1])
+        n = len(eng.iter_concrete(mt, st))
+        if not 1 <= n <= 3:
+            raise Unsupported(f"{qual}: arity {n} of msg_types is not among the proved arities 1..3")
+        return apply_contract(eng, make(n), fv, args, kwargs, st)
+    c.model = model
+    return c
+
+
 def ALL():
-    cs = [cleanup_contract(), report_fatal_error_contract()]
+    cs = [cleanup_contract(), report_fatal_error_contract(), send_messages_callee(), process_packet_contract(), ping_handler_contract(),
+          time_handler_contract(), disconnect_handler_contract(), force_disconnect_contract(), send_keep_alive_contract(),
+          pong_not_received_contract(), hello_resp_contract(), login_resp_contract(), make_connect_request_contract(), wrap_contract(),
+          handle_timeout_contract(), handle_complex_message_contract()]
+    cs += [arity_dispatch("_add_message_callback_without_remove", lambda n: add_callback_contract(n)),
+           arity_dispatch("add_message_callback", lambda n: add_callback_contract(n, "add_message_callback")),
+           arity_dispatch("_remove_message_callback", lambda n: remove_callback_contract(n))]
     return {c.target.split("APIConnection.")[-1] if "APIConnection." in c.target else c.target.split(".")[-1]: c for c in cs}
